@@ -44,8 +44,8 @@ Definition eqb_object (a b : mobject) : bool :=
 (* observed: 0 = error, 1 = meta-objects, 2 = the process died of a stack overflow *)
 Record pcase := P { pc_text : string; pc_res : N; pc_objs : list mobject }.
 
-Definition pcase_ok (c : pcase) : bool :=
-  match parse_idl (pc_text c) with
+Definition pcase_ok (cfg : icfg) (c : pcase) : bool :=
+  match parse_idl_cfg cfg (pc_text c) with
   | IOk objs => N.eqb (pc_res c) 1 && eqb_list eqb_object objs (pc_objs c)
   | IErr => N.eqb (pc_res c) 0
   | ICrash => N.eqb (pc_res c) 2
@@ -67,5 +67,6 @@ Fixpoint bad_idx {A} (f : A -> bool) (l : list A) (i : nat) : list nat :=
   | x :: r => if f x then bad_idx f r (S i) else i :: bad_idx f r (S i)
   end.
 
-Definition mismatches (gs : list gcase) (ps : list pcase) : list nat * list nat :=
-  (bad_idx gcase_ok gs 0, bad_idx pcase_ok ps 0).
+(* cfg: which repairs of design/C18.fix.*.diff the parser has (observed by the harness on probe texts) *)
+Definition mismatches (cfg : icfg) (gs : list gcase) (ps : list pcase) : list nat * list nat :=
+  (bad_idx gcase_ok gs 0, bad_idx (pcase_ok cfg) ps 0).
